@@ -17,10 +17,15 @@ func ZZH_C05_SaveUnderFaults() {
 			d.parts["word/"] = []byte{}
 		}
 	}
-	kind := zzvChoice(4)
+	kind := zzvChoice(5)
+	if kind == 3 && zzvBool() {
+		// a part larger than the archive writer's buffer: natively the full device then fails
+		// inside an entry's Write call, not only at Close (symbolically: arbitrary content)
+		d.parts["customXml/blob.bin"] = []byte(zzvBlob())
+	}
 	path := zzvFaultPath(kind)
 	err := d.Save(path)
-	if kind != 0 {
+	if kind != 0 && kind != 4 {
 		zzvAssert(err != nil, "Save returns an error when the underlying writes fail")
 		zzvReach("fault-reported")
 		return
@@ -36,6 +41,9 @@ func ZZH_C05_SaveUnderFaults() {
 	for _, must := range []string{"[Content_Types].xml", "_rels/.rels", "word/document.xml", "word/styles.xml", "word/_rels/document.xml.rels"} {
 		_, has := onDisk[must]
 		zzvAssert(has, "the saved package contains the fixed parts")
+	}
+	if kind == 4 {
+		zzvReach("saved over a longer existing file")
 	}
 	zzvReach("saved")
 }
